@@ -450,7 +450,7 @@ pub fn run(args: &Args, out: &mut Out) {
         return;
     }
     let g = Gen { addrs: base_addrs(), peers: peers() };
-    let n = args.n(400, 20_000);
+    let n = args.n(1500, 15_000);
     for i in 0..n {
         let mut rng = Rng::for_case(args.seed, i);
         let len = 5 + rng.usize(40);
